@@ -19,7 +19,9 @@ VARIABLES
   arr,       \* Seq of [w, sn, k, kind, gen]: arrivals, index = sample id; kind "V" value, "D" dispose, "X" unintelligible
   ist,       \* function key -> "A" | "D"   (instances seen so far)
   dgen,      \* function key -> disposed generation count
-  lastAcc,   \* function key -> generation last accessed by the application (-1 never)
+  lastAcc,   \* function key -> generation last accessed by the application (-1 never): what is known for sure
+  accHi,     \* function key -> the highest generation the application may have accessed: differs from lastAcc
+             \* after an identity-less dispose of the instance was returned (it may have been any of them)
   taken,     \* ids removed by a take
   wasRead,   \* ids returned by a read (sample state READ from then on)
   seenOut,   \* ids ever returned
@@ -28,10 +30,10 @@ VARIABLES
   fzTaken,   \* ... by a take form: which dispose sample it was is unknown from then on
   viol
 
-scVars == <<depth, arr, ist, dgen, lastAcc, taken, wasRead, seenOut, errs, fzRead, fzTaken, viol>>
+scVars == <<depth, arr, ist, dgen, lastAcc, accHi, taken, wasRead, seenOut, errs, fzRead, fzTaken, viol>>
 
 SCInit(d) ==
-  /\ depth = d /\ arr = <<>> /\ ist = <<>> /\ dgen = <<>> /\ lastAcc = <<>>
+  /\ depth = d /\ arr = <<>> /\ ist = <<>> /\ dgen = <<>> /\ lastAcc = <<>> /\ accHi = <<>>
   /\ taken = {} /\ wasRead = {} /\ seenOut = {} /\ errs = 0 /\ fzRead = {} /\ fzTaken = {} /\ viol = {}
 
 Put(f, k, v) == [x \in DOMAIN f \cup {k} |-> IF x = k THEN v ELSE f[x]]
@@ -50,7 +52,7 @@ AbsArrive(w, sn, k, kind, ord) ==
             IN /\ arr' = Append(arr, [w |-> w, sn |-> sn, k |-> k, kind |-> kind, gen |-> g, ord |-> ord])
                /\ ist' = Put(ist, k, IF kind = "V" THEN "A" ELSE "D")
                /\ dgen' = Put(dgen, k, g)
-  /\ UNCHANGED <<depth, lastAcc, taken, wasRead, seenOut, errs, fzRead, fzTaken, viol>>
+  /\ UNCHANGED <<depth, lastAcc, accHi, taken, wasRead, seenOut, errs, fzRead, fzTaken, viol>>
 
 (* --------------------------------------------------------------- outputs *)
 Ids == DOMAIN arr
@@ -98,7 +100,8 @@ ViewViol(out) ==
         LET i == out[n].id IN
         /\ i \in Ids /\ Intelligible(i)
         /\ Newer(i) = 0
-        /\ (out[n].vs = "N") # (arr[i].gen > Get(lastAcc, arr[i].k, -1))
+        /\ \/ arr[i].gen > Get(accHi, arr[i].k, -1) /\ out[n].vs # "N"       \* certainly reborn since the last access
+           \/ arr[i].gen <= Get(lastAcc, arr[i].k, -1) /\ out[n].vs = "N"     \* certainly seen in this generation
   THEN {"C08_view_state"} ELSE {}
 
 OrderViol(out) ==
@@ -152,6 +155,12 @@ AbsCall(res, out, max, cond, scope, removing, marking, full, viewing, strict) ==
                         THEN LET g == SMax({arr[i].gen : i \in {j \in ids : arr[j].k = k}})
                              IN IF viewing /\ g > Get(lastAcc, k, -1) THEN g ELSE Get(lastAcc, k, -1)
                         ELSE lastAcc[k]]
+     \* fz: instances of which an identity-less dispose was returned; it may have been of any generation so far
+     /\ accHi' = [k \in DOMAIN accHi \cup accK \cup (IF viewing THEN fz ELSE {}) |->
+                    LET old == Get(accHi, k, -1)
+                        a == IF k \in accK /\ viewing THEN SMax({arr[i].gen : i \in {j \in ids : arr[j].k = k}}) ELSE -1
+                        b == IF k \in fz /\ viewing THEN Get(dgen, k, 0) ELSE -1
+                    IN SMax({old, a, b})]
      /\ fzRead' = IF marking THEN fzRead \cup fz ELSE fzRead
      /\ fzTaken' = IF removing THEN fzTaken \cup fz ELSE fzTaken
      /\ viol' = viol \cup v0 \cup v1 \cup v2 \cup v3 \cup v4 \cup v5 \cup v6 \cup v7 \cup v8
@@ -164,7 +173,7 @@ AbsDrained ==
   /\ viol' = viol \cup
        (IF \E i \in Ids : Intelligible(i) /\ WithinDepth(i) /\ ~Fuzzy(i) /\ i \notin seenOut
           THEN {"C09_intelligible_change_never_delivered"} ELSE {})
-  /\ UNCHANGED <<depth, arr, ist, dgen, lastAcc, taken, wasRead, seenOut, errs, fzRead, fzTaken>>
+  /\ UNCHANGED <<depth, arr, ist, dgen, lastAcc, accHi, taken, wasRead, seenOut, errs, fzRead, fzTaken>>
 
 SCInv_NoViolation == viol = {}
 ===========================================================================
